@@ -612,6 +612,18 @@ def gen_focus(rng, kind):
         tail = tail + ["qp1.%d.2" % sl for sl in shared if rng.random() < 0.5]
         head = pre + head
         tail = tail + ["qd1.%d.2" % sl for sl in shared]
+    elif kind == "bound":
+        # step accounting: draws, scheduling points and resets under a tight bound
+        objs = "a0"
+        for b in range(nb):
+            ops = []
+            for _ in range(rng.randint(3, 12)):
+                r = rng.random()
+                ops.append("rn" if r < 0.4 else "rs" if r < 0.6 else "yd" if r < 0.85 else "a0.add.1")
+            bodies.append(ops)
+        bodies[0] = head + bodies[0] + tail
+        ms = "%s:%d" % (rng.choice(["fail", "cont"]), rng.randint(3, 14))
+        return "prog %s %s %d %s %s" % (ms, gen_script(rng), rng.getrandbits(32), objs, "|".join(";".join(o) if o else "-" for o in bodies))
     elif kind == "atomic":
         objs = "a%d,a%d" % (rng.choice([0, 1, 5]), rng.choice([0, 2 ** 64 - 1]))
         for b in range(nb):
